@@ -18,3 +18,113 @@ def run(rep, tier):
                               'From<{u8,i8,u16,i16,u32,i32}> for SafeLong', 'Deserialize for SafeLong (serde i64 visitor real)',
                               'From<SafeLong> for {i64,i128}', 'TryFrom<SafeLong> for {u64,i32}']
     kani.handle_failures(rep, failed, 'C15')
+    run_m(rep, tier)
+
+
+# ---------------------------------------------------------------- engine M: text routes (FromStr / FromPlain) on real MIR
+def run_m(rep, tier):
+    import z3
+    from mirsym.dump import program
+    from mirsym.interp import Interp, St
+    from mirsym import models_std, models_serde
+    from mirsym.models_std import parse_int_model
+    from mirsym.values import Panic, Unwind, bv
+    from mirsym.harness import sym_str, model_bytes, Decider, finish_engine, replay, find_fn
+    K = 20 if tier == 'quick' else 24
+    rep.bounds['M'] = f'all valid-UTF-8 strings of <= {K} bytes (covers every decimal spelling of +-2^63 with sign and leading zeros up to that length)'
+    prog = program(['conjure_object'])
+    it = Interp(prog, models_std.MODELS + models_serde.MODELS, models_serde.TMODELS, unwind=8)
+    dec = Decider(rep, it)
+    MAXV = (1 << 53) - 1
+    entries = {'from_str': find_fn(prog, 'from_str', inpath='::safe_long::'), 'from_plain': find_fn(prog, 'from_plain', ret='SafeLong'),
+               'new': find_fn(prog, 'new', inpath='::safe_long::')}
+    for ename, fname in entries.items():
+        st = St()
+        if ename == 'new':
+            n = z3.BitVec('n', 64)
+            args = [n]
+            pok, v = z3.BoolVal(True), n
+            s = None
+        else:
+            ptr, s = sym_str(st, 's', K)
+            args = [ptr]
+            pok, v = parse_int_model(s, 64, True)
+        want_ok = z3.And(pok, v >= -MAXV, v <= MAXV)
+        npaths, seen = 0, {'acc': 0, 'rej': 0}
+        for s2, rv in it.run(fname, args, st):
+            npaths += 1
+            rep.states += 1
+            if isinstance(rv, Unwind):
+                rep.inconc(f'C15 {ename}: unwinding assertion at {rv.where}')
+                continue
+            if isinstance(rv, Panic):
+                m = dec.decide(f'{ename}:panic', s2, z3.BoolVal(True))
+                report(rep, ename, m, s, args, f'panic: {rv.msg}')
+                continue
+            accepted = it.variant_of(rv, 'Ok')
+            okp = it.payload(rv, 'Ok')
+            stored = okp.fields[0].fields[0] if okp is not None else None
+            bad = accepted != want_ok
+            if stored is not None:
+                bad = z3.Or(bad, z3.And(accepted, z3.Or(stored != v, stored > MAXV, stored < -MAXV)))
+            m = dec.decide(f'{ename}:path{npaths}:Ok<=>|n|<=2^53-1-and-value-kept', s2, bad, bound=K if s is not None else 'full width')
+            if m is not None:
+                report(rep, ename, m, s, args, 'acceptance or stored value differs from the 53-bit range contract')
+                continue
+            seen['acc'] += int(it.feasible(s2, accepted))
+            seen['rej'] += int(it.feasible(s2, z3.Not(accepted)))
+        if not seen['acc'] or not seen['rej']:
+            rep.inconc(f'vacuity: C15 {ename} accept={seen["acc"]} reject={seen["rej"]}')
+    # reachability twins through the text routes, replayed on the real build (all text/document routes at once)
+    st = St()
+    ptr, s = sym_str(st, 's', K)
+    pok, v = parse_int_model(s, 64, True)
+    for tag, cond, want in (('max', z3.And(pok, v == MAXV), True), ('max+1', z3.And(pok, v == MAXV + 1), False),
+                            ('min', z3.And(pok, v == -MAXV, s.len == 17), True), ('min-1', z3.And(pok, v == -MAXV - 1), False)):
+        m = dec.witness('text:' + tag, st, cond)
+        b = model_bytes(m, s)
+        r = replay([{'op': 'safelong_text', 'hex': b.hex()}])[0]
+        rep.replayed += 1
+        for route in ('from_str', 'from_plain'):
+            if r[route]['ok'] != want:
+                rep.inconc(f'model mismatch: twin {tag} text {b!r}: native {route} -> {r[route]}')
+        # the document routes (JSON value, JSON map key, any) on the canonical spelling: these go through serde_json's number
+        # parser (third party) into the code decided by K (Deserialize) and M (any): a native cross-check, not a claim
+        canon = str(int(b.decode()))
+        r2 = replay([{'op': 'safelong_text', 'hex': canon.encode().hex()}])[0]
+        for route in ('json_client', 'json_server', 'json_key', 'any'):
+            if r2[route]['ok'] != want:
+                rep.violation(f'C15:{route}:boundary', f'{route} of {canon}: native {r2[route]}, contract says ok={want}', {'text': canon, 'native': r2})
+    finish_engine(rep, it)
+    rep.assumptions.append('std: <i64 as FromStr>::from_str == decimal parser with optional sign, >=1 digits, overflow -> Err (exact bit-vector model)')
+    rep.outside.append(f'decimal strings longer than {K} bytes (more leading zeros); the digit loop of i64::from_str (std)')
+
+
+def report(rep, ename, m, s, args, what):
+    from mirsym.harness import model_bytes, replay
+    MAXV = (1 << 53) - 1
+    if s is None:
+        n = m.eval(args[0], True).as_signed_long()
+        op = {'op': 'safelong_new', 'n': str(n)}
+        r, r2 = replay([op])[0], replay([op], 'release')[0]
+        rep.replayed += 1
+        want = -MAXV <= n <= MAXV
+        if (r.get('ok') != want or (want and r.get('value') != str(n))) and r == r2:
+            rep.violation(f'C15:{ename}', f'SafeLong::new({n}): {what}; native {r}', {'n': str(n), 'native': r})
+        else:
+            rep.inconc(f'model mismatch C15 {ename}: n={n} {what} does not reproduce natively: {r}')
+        return
+    b = model_bytes(m, s)
+    op = {'op': 'safelong_text', 'hex': b.hex()}
+    r, r2 = replay([op])[0], replay([op], 'release')[0]
+    rep.replayed += 1
+    try:
+        n = int(b.decode()) if __import__('re').fullmatch(rb'[+-]?[0-9]+', b) else None
+    except Exception:
+        n = None
+    want = n is not None and -MAXV <= n <= MAXV
+    g = r.get(ename, {})
+    if (g.get('ok') != want or (want and g.get('value') != str(n))) and r == r2:
+        rep.violation(f'C15:{ename}', f'{ename}({b!r}): {what}; native {g}', {'input_hex': b.hex(), 'native': r})
+    else:
+        rep.inconc(f'model mismatch C15 {ename}: {b!r} {what} does not reproduce natively: {g}')
